@@ -42,6 +42,25 @@ def main():
     mod = importlib.import_module(f"harness.props.{prop}")
     cases = json.load(open(cases_path))
     signal.signal(signal.SIGALRM, _alarm)
+    # statement coverage of the package under test (DESIGN 4.2): which lines of /repo/score_analysis the cases executed
+    executed = {}
+    pkg = os.path.join(os.path.abspath(repo), "score_analysis") + os.sep
+    trace_on = os.environ.get("VERIF_TRACE", "1") == "1"
+
+    def _local(frame, event, arg):
+        if event == "line":
+            executed[frame.f_code.co_filename].add(frame.f_lineno)
+        return _local
+
+    def _global(frame, event, arg):
+        fn = frame.f_code.co_filename
+        if fn.startswith(pkg):
+            executed.setdefault(fn, set()).add(frame.f_lineno)
+            return _local
+        return None
+
+    if trace_on:
+        sys.settrace(_global)
     results = []
     for case in cases:
         signal.alarm(int(os.environ.get("VERIF_CASE_TIMEOUT", "20")))
@@ -55,7 +74,8 @@ def main():
         finally:
             signal.alarm(0)
         results.append(res)
-    json.dump({"results": results}, open(out_path, "w"))
+    sys.settrace(None)
+    json.dump({"results": results, "executed": {k[len(pkg):]: sorted(v) for k, v in executed.items()}}, open(out_path, "w"))
 
 
 if __name__ == "__main__":
